@@ -416,8 +416,10 @@ def zk_crash():
     return zkfake.Crash
 
 
-def run_histories(ctx, props, profile_for=None, prefix='m_'):
+def run_histories(ctx, props, profile_for=None, prefix='m_', special=None):
     for idx, rng in ctx.cases():
+        if special is not None and special(ctx, idx, rng):
+            continue
         pf = profile_for(rng) if profile_for else mdrv.MProfile()
         h = MHistory(ctx, rng, pf, props)
         try:
